@@ -123,7 +123,8 @@ func lifecycleOracle(c *Ctx, w *World) {
 	var calls []*call
 	open := map[int64]*call{}
 	for _, e := range evs {
-		if e.Kind == "call" && (strings.HasPrefix(e.Src, "rt:") || strings.HasPrefix(e.Src, "ext:")) {
+		// every HTTP party counts, whatever its label (hostile clients of C07 register extensions too)
+		if e.Kind == "call" && e.Src != "drv" && !strings.HasPrefix(e.Src, "caller") {
 			cl := &call{src: e.Src, op: e.Op, callSeq: e.Seq, extra: e.Extra, id: e.ID}
 			calls = append(calls, cl)
 			open[e.Seq] = cl
@@ -157,11 +158,20 @@ func lifecycleOracle(c *Ctx, w *World) {
 					fs = append(fs, "Extension.LaunchError")
 				}
 			}
-			if e.Kind == "call" && e.Op == "extiniterror" {
-				fs = append(fs, "Extension.InitError")
-			}
-			if e.Kind == "call" && e.Op == "extexiterror" {
-				fs = append(fs, "Extension.ExitError")
+			// an error report is a fault only if it was accepted (202); one whose answer was never
+			// seen (sender killed meanwhile) may or may not have been applied: it is admissible
+			if e.Kind == "call" && (e.Op == "extiniterror" || e.Op == "extexiterror") {
+				if cl := open[e.Seq]; cl != nil && (cl.status == 202 || cl.retSeq == 0 || cl.status == 0) {
+					q := ""
+					if cl.status != 202 {
+						q = "?" // possibly applied
+					}
+					if e.Op == "extiniterror" {
+						fs = append(fs, "Extension.InitError"+q)
+					} else {
+						fs = append(fs, "Extension.ExitError"+q)
+					}
+				}
 			}
 		}
 		return fs
@@ -211,13 +221,16 @@ func lifecycleOracle(c *Ctx, w *World) {
 				}
 				fs := faultBefore(lower, rd.Seq)
 				want := "Runtime.Unknown"
-				if len(fs) > 0 {
-					want = fs[0]
+				for _, f := range fs {
+					if !strings.HasSuffix(f, "?") {
+						want = f
+						break
+					}
 				}
 				// several faults may be concurrent: accept any fault that happened before the event
 				ok := rd.Etype == want
 				for _, f := range fs {
-					if rd.Etype == f {
+					if rd.Etype == strings.TrimSuffix(f, "?") {
 						ok = true
 					}
 				}
